@@ -11,7 +11,7 @@ import client as cl
 import impl
 
 HEADER = """From Coq Require Import List NArith.
-From MM Require Import Lib.Bytes Model.Wire Gen.Facts.
+From MM Require Import Lib.Bytes Model.Wire Gen.FactsStream.
 Import ListNotations. Open Scope N_scope.
 Definition M := stream_write_take.
 Definition hm := stream_header_read.
